@@ -15,6 +15,7 @@
  */
 #pragma once
 
+#include <unifex/detail/verif_hooks.hpp>
 #include <unifex/config.hpp>
 
 #include <atomic>
@@ -118,6 +119,7 @@ public:
       // Step 2: clear canary's watcher_ pointer.
       // Canary is alive (its destructor can't complete while our
       // canary_ is locked — its CAS on canary_ will fail).
+      UNIFEX_VERIF_POINT(351);
       watcher* expected = this;
       while (!c->watcher_.compare_exchange_weak(
           expected, nullptr, std::memory_order_acq_rel)) {
@@ -135,6 +137,7 @@ public:
     }
 
     [[nodiscard]] guard alive() noexcept {
+      UNIFEX_VERIF_POINT(353);
       uint8_t expected = _alive;
       if (state_.compare_exchange_strong(
               expected, _guarded, std::memory_order_acq_rel)) {
@@ -179,6 +182,7 @@ public:
     // Step 2: lock watcher's canary_ pointer.
     // Watcher is alive (its destructor can't complete while our
     // watcher_ is locked — its CAS on watcher_ will fail).
+    UNIFEX_VERIF_POINT(352);
     canary* expected = this;
     if (!w->canary_.compare_exchange_strong(
             expected, _lock(this), std::memory_order_acq_rel)) {
@@ -193,6 +197,7 @@ public:
     // Both pointers locked. We fully own the watcher.
 
     // Step 3: guard coordination via state_.
+    UNIFEX_VERIF_POINT(354);
     auto old = w->state_.exchange(_dead, std::memory_order_acq_rel);
     if (old == _guarded) {
       // Guard is held — spin until released. The guard destructor
